@@ -16,6 +16,12 @@
 (*           whole entries (mode plain or rechain)                         *)
 (*   bytes   flip a bit of the encoded entry; the harness reports which    *)
 (*           decoded fields changed                                        *)
+(*   forge   (conformance of the grounding checks, which keyless tampering *)
+(*           never reaches) somebody holding signing keys re-signs the log *)
+(*           after dropping a LOG entry / a grounding / the genesis, after *)
+(*           planting a wrong Merkle root or a forged root signature; or   *)
+(*           holds only the Ed25519 key and rewrites a field: the stale    *)
+(*           ML-DSA root signature of the next grounding gives it away     *)
 (* Apply(c) is the tampered log, Validate(Apply(c)) the verdict of the     *)
 (* model of validation.go.  The property: every tampered log that is not a *)
 (* prefix of L (suffix cut / no change) is rejected.                       *)
@@ -166,6 +172,59 @@ ApplyStruct(c) ==
       T == ApplyStruct0(c.kind, p)
   IN IF c.mode = "rechain" THEN Rechain(T, IF c.kind = "swapadj" /\ p = N THEN p - 1 ELSE p, TRUE) ELSE T
 
+\* ------------------------------------------------------------ forged logs
+\* what a holder of `keys` (subset of {"ed", "ml"}) can redo from entry `from` on: prev links, Merkle
+\* roots (fixRoots) and the root signatures of the keys held, entry hashes, entry signatures ("ed")
+RECURSIVE ResignFrom(_, _, _, _, _, _)
+ResignFrom(log, i, out, buf, fixRoots, keys) ==
+  IF i > Len(log) THEN out
+  ELSE LET e0 == log[i]
+           e1 == IF out = <<>> THEN e0 ELSE [e0 EXCEPT !.prev = out[Len(out)].hash]
+           isG == e1.type = "GROUNDING" /\ "merkleRoot" \in DOMAIN e1.d
+           root == IF fixRoots THEN Merkle(buf) ELSE e1.d.merkleRoot
+           e2 == IF isG THEN [e1 EXCEPT !.d.merkleRoot = root,
+                                        !.d.sigEd25519 = IF "ed" \in keys THEN SignRoot(root) ELSE @,
+                                        !.d.sigMlDsa87 = IF "ml" \in keys THEN SignRootMl(root) ELSE @]
+                 ELSE e1
+           e3 == IF "ed" \in keys THEN [e2 EXCEPT !.hash = H(e2), !.sig = Sign(H(e2))] ELSE Rehash(e2)
+       IN ResignFrom(log, i + 1, Append(out, e3),
+                     IF e3.type = "LOG" THEN Append(buf, e3.hash) ELSE IF e3.type = "GROUNDING" THEN <<>> ELSE buf,
+                     fixRoots, keys)
+Resign(log, from, fixRoots, keys) ==
+  IF from > Len(log) THEN log
+  ELSE ResignFrom(log, from, SubSeq(log, 1, from - 1), BufOf(SubSeq(log, 1, from - 1)), fixRoots, keys)
+
+BothKeys == {"ed", "ml"}
+ForgeKinds == {"drop-log-resign", "drop-grounding-resign", "wrong-merkle-resign", "bad-rootsig-ed", "bad-rootsig-ml",
+               "nogenesis-resign", "genesisprev-resign", "edkey-field"}
+ForgePositions(what) ==
+  CASE what = "drop-log-resign" -> {"first", "mid", "lastbefore"}
+    [] what \in {"drop-grounding-resign", "wrong-merkle-resign", "bad-rootsig-ed", "bad-rootsig-ml"} -> {"grounding"}
+    [] what \in {"nogenesis-resign", "genesisprev-resign"} -> {"genesis"}
+    [] what = "edkey-field" -> {"first", "mid", "lastbefore", "after", "last"}
+
+ApplyForge(c) ==
+  LET p == Idx(c.pos) IN
+  CASE c.field = "drop-log-resign" -> Resign(SubSeq(L, 1, p - 1) \o SubSeq(L, p + 1, N), p, TRUE, BothKeys)
+    [] c.field = "drop-grounding-resign" -> Resign(SubSeq(L, 1, p - 1) \o SubSeq(L, p + 1, N), p, TRUE, BothKeys)
+    [] c.field = "wrong-merkle-resign" -> Resign(ReplaceAt(L, p, MutateField(L[p], "merkleRoot", "alter")), p, FALSE, BothKeys)
+    [] c.field = "bad-rootsig-ed" ->    \* everything re-signed properly except the Ed25519 signature over the root
+         LET g0 == MutateField(L[p], "sigEd25519", "alter")
+             g1 == [g0 EXCEPT !.hash = H(g0), !.sig = Sign(H(g0))]
+         IN Resign(ReplaceAt(L, p, g1), p + 1, TRUE, BothKeys)
+    [] c.field = "bad-rootsig-ml" -> Resign(ReplaceAt(L, p, MutateField(L[p], "sigMlDsa87", "alter")), p, TRUE, {"ed"})
+    [] c.field = "nogenesis-resign" -> Resign(<<[L[2] EXCEPT !.prev = GenesisPrev]>> \o SubSeq(L, 3, N), 1, TRUE, BothKeys)
+    [] c.field = "genesisprev-resign" -> Resign(ReplaceAt(L, 1, MutateField(L[1], "previousHash", "alter")), 1, TRUE, BothKeys)
+    [] c.field = "edkey-field" -> Resign(ReplaceAt(L, p, MutateField(L[p], "key", "alter")), p, TRUE, {"ed"})
+
+ForgeCases ==
+  { [kind |-> "forge", pos |-> pos, field |-> what, field2 |-> "", mut |-> "", mode |-> "resign"] :
+      what \in ForgeKinds, pos \in PosClasses }
+ForgeCaseOK(c) == c.pos \in ForgePositions(c.field)
+
+\* the grounding checks reject every forged log - except that the Ed25519 key alone suffices behind the last grounding
+ForgeExpectedAccept(c) == c.field = "edkey-field" /\ \A i \in (Idx(c.pos) + 1)..N : L[i].type # "GROUNDING"
+
 \* -------------------------------------------------------------- case space
 NoCaseFields == [field |-> "", field2 |-> "", mut |-> "", mode |-> "plain"]
 
@@ -186,9 +245,9 @@ StructCases ==
 StructCaseOK(c) == StructApplicable(c.kind, c.pos) /\ (c.mode = "rechain" => c.kind \notin {"cut", "cutbefore"})
 
 TamperCases == {c \in FieldCases : FieldCaseOK(c)} \cup {c \in PairCases : PairCaseOK(c)}
-               \cup {c \in StructCases : StructCaseOK(c)}
+               \cup {c \in StructCases : StructCaseOK(c)} \cup {c \in ForgeCases : ForgeCaseOK(c)}
 
-Apply(c) == IF c.kind = "field" THEN ApplyField(c) ELSE ApplyStruct(c)
+Apply(c) == IF c.kind = "field" THEN ApplyField(c) ELSE IF c.kind = "forge" THEN ApplyForge(c) ELSE ApplyStruct(c)
 
 \* ---------------------------------------------------------------- property
 IsPrefixOfL(T) == Len(T) <= N /\ T = SubSeq(L, 1, Len(T))
@@ -251,8 +310,10 @@ Init == Logs /\ case \in TamperCases
 Next == UNCHANGED <<case, L, F>>
 Spec == Init /\ [][Next]_<<case, L, F>>
 
-\* design level: with every recorded field hashed, every tamper case is detected
-TamperDetected == Detected(Apply(case))
+\* design level: with every recorded field hashed, every (keyless) tamper case is detected;
+\* forged logs are rejected by the grounding checks exactly as far as the design promises
+TamperDetected == IF case.kind = "forge" THEN Validate(Apply(case)).ok = ForgeExpectedAccept(case)
+                  ELSE Detected(Apply(case))
 \* sanity of the case space: every case really changes the log (or is a pure suffix cut)
 CaseChanges == Apply(case) # L
 LogIsValid == Validate(L).ok /\ Validate(F).ok /\ N = Len(L) /\ \A pos \in PosClasses : L[Idx(pos)].type = KindAt(pos)
